@@ -200,6 +200,8 @@ func runConsumerScenario(t testing.TB, rec *vRec, sc *consScenario) {
 
 	type pcState struct {
 		pc        PartitionConsumer
+		stalling  int64 // 1 while the scripted reader is sleeping; stallEpoch counts starts and ends
+		stallEp   int64
 		delivered int64
 		closedM   chan struct{}
 		closedE   chan struct{}
@@ -238,7 +240,11 @@ func runConsumerScenario(t testing.TB, rec *vRec, sc *consScenario) {
 				if ms, ok := stalls[idx]; ok {
 					delete(stalls, idx)
 					rec.Ev("stall", kv{"part": part, "at": idx, "ms": ms})
+					atomic.StoreInt64(&st.stalling, 1)
+					atomic.AddInt64(&st.stallEp, 1)
 					time.Sleep(time.Duration(ms) * time.Millisecond)
+					atomic.StoreInt64(&st.stalling, 0)
+					atomic.AddInt64(&st.stallEp, 1)
 				}
 				m, ok := <-pc.Messages()
 				if !ok {
@@ -329,6 +335,54 @@ func runConsumerScenario(t testing.TB, rec *vRec, sc *consScenario) {
 		}
 		return true
 	}
+	// waitComplete waits until `want` messages were delivered. It gives up ("stuck") only on evidence
+	// that does not depend on the machine's speed: the consumer has polled the partition at least 6
+	// more times at an unchanged fetch offset without delivering anything, or the whole process is
+	// blocked (three identical goroutine pictures with nothing runnable), or after a 60 s cap.
+	waitComplete := func(part, want int) bool {
+		st := pcs[part]
+		if st == nil {
+			return false
+		}
+		hard := time.Now().Add(60 * time.Second)
+		lastDelivered := int64(-1)
+		lastEp := int64(-1)
+		var fetchAtLast int
+		var offAtLast int64
+		same, lastFp := 0, ""
+		tick := 0
+		for time.Now().Before(hard) {
+			dl := atomic.LoadInt64(&st.delivered)
+			if dl >= int64(want) {
+				return true
+			}
+			c.mu.Lock()
+			fn, fo := c.parts[int32(part)].fetchN, c.parts[int32(part)].lastFetchOff
+			c.mu.Unlock()
+			ep := atomic.LoadInt64(&st.stallEp)
+			if dl != lastDelivered || fo != offAtLast || ep != lastEp || atomic.LoadInt64(&st.stalling) != 0 {
+				// progress, or the application itself is (or was) not reading: restart the count
+				lastDelivered, fetchAtLast, offAtLast, lastEp = dl, fn, fo, ep
+			} else if fn-fetchAtLast >= 8 {
+				return false
+			}
+			time.Sleep(5 * time.Millisecond)
+			tick++
+			if tick%80 == 0 {
+				fp, active := vGoroutineStates()
+				if !active && fp == lastFp {
+					same++
+					if same >= 3 {
+						return atomic.LoadInt64(&st.delivered) >= int64(want)
+					}
+				} else {
+					same = 0
+				}
+				lastFp = fp
+			}
+		}
+		return atomic.LoadInt64(&st.delivered) >= int64(want)
+	}
 	for _, st := range sc.Steps {
 		d := vWait
 		if st.Ms > 0 {
@@ -388,7 +442,7 @@ func runConsumerScenario(t testing.TB, rec *vRec, sc *consScenario) {
 			c.mu.Lock()
 			want := len(visibleOffsets(c.parts[int32(part)].batches, st.start, cf.Iso == "rc"))
 			c.mu.Unlock()
-			if !waitDelivered(part, want, 3*time.Second) {
+			if !waitComplete(part, want) {
 				rec.Ev("stuck", kv{"part": part, "delivered": int(atomic.LoadInt64(&st.delivered)), "want": want})
 			} else {
 				time.Sleep(3 * time.Millisecond) // anything delivered beyond the expected set shows up as a violation
